@@ -33,7 +33,7 @@ TRUSTED_BASE = [
     "CBMC 6.11 and the SAT/SMT back ends it calls (CaDiCaL, Kissat, MiniSat, Z3, cvc5)",
     "Verus 0.2026.09.13 + Z3 (for obligations with engine=verus)",
     "/verif/refs (bcref): transcription of each standard, anchored by the standards' published vectors in its own tests",
-    "/verif/intrinsics/x86_aes.rs and aarch64_aes.rs: software models of the AES instructions (Intel SDM / Arm ARM pseudocode over bcref::aes), non-deterministic CPUID; ARMv8 sources are compiled as logged textual shadow copies (intrinsics import redirected to the models)",
+    "/verif/intrinsics/x86_aes.rs, aarch64_aes.rs and aarch64_neon.rs: software models of the AES instructions and of the 14 NEON intrinsics used by kuznyechik::neon (Intel SDM / Arm ARM pseudocode over bcref::aes), non-deterministic CPUID; ARMv8 sources are compiled as logged textual shadow copies (intrinsics import redirected to the models)",
     "dependency crates cipher, inout, hybrid-array, crypto-common, typenum, byteorder, zeroize, cpufeatures: compiled and executed as they are by Kani (not assumed) unless an obligation says 'stub'",
     "injection is insertion-only (checked on every run by diff) so the compiled function bodies are /repo's working tree",
 ]
